@@ -75,7 +75,14 @@ func (c *Ctx) pureRng() *rand.Rand {
 }
 
 // remember keeps a uniform sample of the stateless calls of this run.
+// volatileOps: ops whose recorded event legitimately differs between two executions of the same call (the block
+// filter builder reports its entries in map order); they take no part in the replay.
+var volatileOps = map[string]bool{"GcsBuilder": true, "BuilderHist": true, "Proof": true, "Robust": true, "CertPair": true}
+
 func (c *Ctx) remember(a, e Event, dur time.Duration) {
+	if volatileOps[gName(a, "op")] {
+		return
+	}
 	c.pureSeen++
 	pc := pureCall{a, resultBytes(e), dur}
 	if len(c.pure) < maxPure {
@@ -96,7 +103,6 @@ func (c *Ctx) ConcurrentReplay() {
 	// executed 16 more times on 8 goroutines: about 2 x its sequential cost in wall-clock time)
 	var calls []pureCall
 	var budget time.Duration
-	unstable := map[string]bool{} // an op with one call that does not repeat exactly is left out altogether
 	skipped := 0
 	for _, pc := range c.pure {
 		if budget+3*pc.dur > 6*time.Second {
@@ -104,19 +110,8 @@ func (c *Ctx) ConcurrentReplay() {
 			continue
 		}
 		budget += 3 * pc.dur
-		if string(resultBytes(Do(nil, pc.call))) != string(pc.res) || string(resultBytes(Do(nil, pc.call))) != string(pc.res) {
-			unstable[gName(pc.call, "op")] = true
-			continue
-		}
 		calls = append(calls, pc)
 	}
-	stable := calls[:0]
-	for _, pc := range calls {
-		if !unstable[gName(pc.call, "op")] {
-			stable = append(stable, pc)
-		}
-	}
-	calls = stable
 	if len(calls) == 0 {
 		return
 	}
@@ -147,8 +142,8 @@ func (c *Ctx) ConcurrentReplay() {
 		}
 		c.Flush()
 		c.Hist([]Event{{"op": "ConcurrentReplay", "mode": "sequential, other call orders", "calls": len(calls), "workers": 1, "executions": 2 * len(calls),
-			"dropped_nondeterministic": len(c.pure) - len(calls) - skipped, "skipped_budget": skipped,
-			"mismatches": mism, "first": map[string]interface{}{"sequential": cut(fseq), "concurrent": cut(fgot)}}})
+			"skipped_budget": skipped,
+			"mismatches":     mism, "first": map[string]interface{}{"sequential": cut(fseq), "concurrent": cut(fgot)}}})
 	}
 	// (b) the same list from 8 goroutines at once
 	const workers = 8
@@ -190,7 +185,7 @@ func (c *Ctx) ConcurrentReplay() {
 		}
 		return s
 	}
-	e := Event{"op": "ConcurrentReplay", "mode": "8 goroutines", "calls": len(calls), "dropped_nondeterministic": len(c.pure) - len(calls) - skipped, "skipped_budget": skipped, "workers": workers, "executions": total,
+	e := Event{"op": "ConcurrentReplay", "mode": "8 goroutines", "calls": len(calls), "skipped_budget": skipped, "workers": workers, "executions": total,
 		"mismatches": len(diffs), "first": map[string]interface{}{"sequential": "", "concurrent": ""}}
 	if len(diffs) > 0 {
 		e["first"] = map[string]interface{}{"sequential": cut(diffs[0].seq), "concurrent": cut(diffs[0].conc)}
